@@ -2186,6 +2186,14 @@ def _enc_enumish(v, depth=0):
     return {"r": repr(v)[:80], "t": t.__name__}
 
 
+def _cell_filled(c):
+    try:
+        c.cell_contents
+        return True
+    except ValueError:
+        return False
+
+
 def _cells(fn):
     if fn is None or not hasattr(fn, "__code__"):
         return {"not_a_function": repr(fn)[:80], "name": getattr(fn, "__name__", None),
@@ -2273,8 +2281,17 @@ def enumtables_family(tier, seed):
         A = 1
         C = 4
 
-    enums = [Color, Crossed, Num, Mixed, Unhashable]
-    flags = [Perm, WithZero, Compound, MultiBit, IPerm, Aliased, Skipped]
+    class Saison(Enum):         # identifiers are not ASCII-only
+        ÉTÉ_CHAUD = 1
+        ÜBERGANG = 2
+        ПОЗДНЯЯ_ОСЕНЬ = 3
+
+    class Droit(Flag):
+        LIRE_TOUT = 1
+        ÉCRIRE = 2
+
+    enums = [Color, Crossed, Num, Mixed, Unhashable, Saison]
+    flags = [Perm, WithZero, Compound, MultiBit, IPerm, Aliased, Skipped, Droit]
     if tier == "thorough":
         import random
         rnd = random.Random(seed)
@@ -2333,6 +2350,30 @@ def enumtables_family(tier, seed):
             prov = ep.EnumExactValueProvider()
             emit({**base, "provider": "exact", "cfg": "-", "loader": attempt(lambda: prov._make_loader(cls)),
                   "dumper": attempt(lambda: prov._make_dumper(cls))})
+            # enum_by_value: the factories get stand-ins for the loader / dumper of the value type (never called)
+            import inspect
+            vt = next((b for b in (int, str) if issubclass(cls, b)), int)
+
+            def value_loader_stub(data):
+                raise AssertionError("never called")
+
+            def value_dumper_stub(data):
+                raise AssertionError("never called")
+            vprov = ep.EnumValueProvider(vt)
+
+            def call_with(f, **avail):
+                ps = inspect.signature(f).parameters
+                return f(**{k: v for k, v in avail.items() if k in ps})
+            rec = {**base, "provider": "value", "cfg": vt.__name__}
+            for side, stub in (("loader", value_loader_stub), ("dumper", value_dumper_stub)):
+                try:
+                    fn = call_with(getattr(vprov, "_make_" + side), enum=cls, value_loader=value_loader_stub, value_dumper=value_dumper_stub)
+                    rec[side] = {"is_value_codec": fn is stub,
+                                 "holds_value_codec": any(c.cell_contents is stub for c in (getattr(fn, "__closure__", None) or ())
+                                                          if _cell_filled(c))}
+                except Exception as e:  # noqa: BLE001
+                    rec[side] = {"error": f"{type(e).__name__}: {e}"[:200]}
+            emit(rec)
         else:
             prov = ep.FlagByExactValueProvider()
             emit({**base, "provider": "flag_exact", "cfg": "-", "loader": attempt(lambda: prov._make_loader(cls))})
